@@ -124,7 +124,7 @@ def _case(draw, tier):
                                + (["p_only", "e_attr"] if inner == "kids" and kind not in ("none", "on_p") else [])
                                + (["p_only", "p_only"] if inner in ("tags", "a", "o") and kind not in ("none", "on_p") else [])
                                + (["p_only"] * 6 if kind == "or_and" and inner in ("tags", "kids") else [])))
-    return {"on_demand": on_demand, "ents": recs, "doms": doms, "vars": vars_, "inner": inner, "cond": cond, "cond_kind": kind, "select": sel,
+    return {"earlier_bare_condition": draw(st.sampled_from([None, None, None, "one", "all"])), "on_demand": on_demand, "ents": recs, "doms": doms, "vars": vars_, "inner": inner, "cond": cond, "cond_kind": kind, "select": sel,
             "dom_kind": "list", "split_top": draw(st.booleans())}
 
 
@@ -167,6 +167,17 @@ def build(case, objs):
         else:
             ea = e.a
             q = an(entity(ea, *conds))           # projection onto an attribute of the flattened element
+        pre = an(entity(p, e)) if case.get("earlier_bare_condition") else None
+    if pre is not None:
+        # the SAME flatten object was first the bare condition of another query over the parent (true where the element is
+        # truthy), evaluated to the end or given up after one result: here it is a value again
+        it_ = pre.evaluate()
+        if case["earlier_bare_condition"] == "one":
+            next(it_, None)
+            it_.close()
+        else:
+            for _ in it_:
+                pass
 
     def extract(res):
         if sel == "e":
@@ -197,6 +208,8 @@ def check(case) -> Outcome:
     classes = ["inner_" + case["inner"] + ("_computed_on_demand" if case.get("on_demand") else ""), "select_" + sel, "cond_" + case["cond_kind"], f"parents{len(parents)}"]
     if any(not i for i in inners):
         classes.append("empty_inner")
+    if case.get("earlier_bare_condition"):
+        classes.append("flatten_object_was_a_bare_condition_of_an_earlier_query")
     if any(len(set(i)) < len(i) for i in inners):
         classes.append("repeated_in_one_list")
     flat_ids = [x for i in inners for x in i]
